@@ -27,6 +27,7 @@ import c15_classes as Z
 from common import err_class, sx, time_limit
 
 UNINIT = {"new_empty", "empty_like"}          # uninitialised memory: shapes only
+ADDRESSES = {"data_ptr"}                       # values are storage addresses of two separately built instances: shapes only
 
 
 # --------------------------------------------------------------------------- canonical forms
